@@ -26,6 +26,7 @@ EXPLANATION = (
     "root units to the substituted units, system taken from the default when None); system-scoped attribute lookup "
     "tries <system>_<name> first; to/ito_base_units use the same target. Does not decide the rule inversion "
     "arithmetic of System.from_definition, value preservation or idempotence.")
+EXPLANATION += " Also decided (rules added after the second round of seeded changes): add_units/remove_units edit the group's own unit set from their arguments alone, without consulting derived membership and without early exit."
 
 
 
